@@ -257,6 +257,10 @@ async def watcher(
             with contextlib.suppress(asyncio.CancelledError):
                 await asyncio.shield(closing_task)
 
+        # Release the operator's readiness if the listing was not finished (e.g. terminated early).
+        if operator_indexed is not None and resource_indexed is not None:
+            await operator_indexed.drop_toggle(resource_indexed)
+
 
 async def worker(
         *,
@@ -361,6 +365,10 @@ async def worker(
             del streams[key]
         except KeyError:
             pass  # already absent
+
+        # Release the operator's readiness if the processor did not get that far (e.g. on errors).
+        if operator_indexed is not None and resource_indexed is not None:
+            await operator_indexed.drop_toggle(resource_indexed)
 
         # Notify the depletion routine about the changes in the workers'/streams' overall state.
         # * This should happen STRICTLY AFTER the removal from the streams[], and
